@@ -40,6 +40,25 @@ struct fuel_exhausted : torrent::internal_error {
 // Poll::do_poll is not virtual; the link step wraps the symbol (-Wl,--wrap=...) so that the call made
 // by Thread::event_loop lands here. The wrapper records the timeout the loop computed and runs the
 // real do_poll with a zero timeout (epoll_wait with a controlled clock cannot be simulated).
+// The scheduler's cached clock has no accessor; it is observed through the public API: a scratch
+// entry scheduled with wait_for(dt) is due at clock + dt. The scratch entry is erased again (the
+// cancelled handle it leaves behind is invisible to every operation).
+static int64_t g_probe_big_dt = 0;  // a relative time that is accepted whatever the clock is (probed at start)
+static int64_t probe_scheduler_clock(torrent::system::Scheduler* sched) {
+  SchedulerEntry probe;
+  probe.slot() = [] {};
+  int64_t dt = 1;
+  try {
+    sched->wait_for(&probe, us(dt));
+  } catch (torrent::internal_error&) {
+    dt = g_probe_big_dt;
+    sched->wait_for(&probe, us(dt));
+  }
+  int64_t clock = probe.time_or_zero().count() - dt;
+  sched->erase(&probe);
+  return clock;
+}
+
 #define DO_POLL_SYM "_ZN7torrent6system4Poll7do_pollENSt6chrono8durationIlSt5ratioILl1ELl1000000EEEE"
 static int64_t g_poll_timeout_us = 0;
 static int     g_poll_calls      = 0;
@@ -52,8 +71,8 @@ unsigned int wrap_do_poll(torrent::system::Poll* self, std::chrono::microseconds
   g_poll_calls++;
   // the clocks the thread holds at the moment it goes to sleep
   auto* t = torrent::system::Thread::self();
-  g_poll_th_us = t->m_cached_time.load().count();
-  g_poll_sc_us = t->m_scheduler->m_cached_time.count();
+  g_poll_th_us = t->cached_time().count();
+  g_poll_sc_us = probe_scheduler_clock(t->scheduler());
   return real_do_poll(self, std::chrono::microseconds(0));
 }
 
@@ -178,7 +197,10 @@ struct Run {
   }
 
   void slot(int e) {
-    if (++fires > k) throw fuel_exhausted();
+    if (++fires > k) {
+      items->push_back("FUEL:" + std::to_string(e));  // this entry was detached, its slot body never ran
+      throw fuel_exhausted();
+    }
     items->push_back(std::to_string(e));
     for (auto& o : scripts[e]) {
       bool is_next; int64_t next;
@@ -187,6 +209,28 @@ struct Run {
     }
   }
 };
+
+template <typename S, typename EV>
+static std::string dump_heap(S& sched, EV& entries) {
+  std::string out;
+  if constexpr (requires { sched.m_heap.begin(); (*sched.m_heap.begin())->time; (*sched.m_heap.begin())->entry; }) {
+    out += " H[";
+    bool first = true;
+    for (auto& h : sched.m_heap) {
+      if (!first) out += ' ';
+      first = false;
+      out += std::to_string(h->time.count()) + ":";
+      if (h->entry == nullptr) out += "-";
+      else {
+        int idx = -1;
+        for (size_t e = 0; e < entries.size(); e++) if (entries[e].get() == h->entry) idx = (int)e;
+        out += std::to_string(idx);
+      }
+    }
+    out += "]";
+  }
+  return out;
+}
 
 void LoopThread::call_events() {
   // one iteration per L op: the second call_events of an event_loop run ends the loop the way a
@@ -247,7 +291,7 @@ static std::string run_case(const std::string& line) {
     torrent::ThreadMain::set_thread_base(r.thread.get());
     r.thread->m_state = torrent::system::Thread::STATE_INITIALIZED;
     r.thread->init_thread_local();      // the real per-thread initialisation (m_self, ids, state ACTIVE)
-    r.schedp = r.thread->m_scheduler.get();
+    r.schedp = r.thread->scheduler();
     r.schedp->set_cached_time(us(0));  // the model starts with m_cached_time = 0
   } else {
     r.schedp = &r.own_sched;
@@ -275,7 +319,6 @@ static std::string run_case(const std::string& line) {
         r.thread->event_loop();
         ok = true;
       } catch (fuel_exhausted&) {
-        items.push_back("FUEL");
       } catch (torrent::internal_error&) {
         items.push_back("ERR:internal");
       }
@@ -297,7 +340,6 @@ static std::string run_case(const std::string& line) {
       try {
         r.sched_ref().perform(us(o.t));
       } catch (fuel_exhausted&) {
-        items.push_back("FUEL");
       } catch (torrent::internal_error&) {
         items.push_back("ERR:internal");
       }
@@ -324,23 +366,15 @@ static std::string run_case(const std::string& line) {
       first = false;
       out += std::to_string(e) + ":" + std::to_string(r.entries[e]->time_or_zero().count());
     }
-  out += "] H[";
-  first = true;
-  for (auto& h : r.sched_ref().m_heap) {
-    if (!first) out += ' ';
-    first = false;
-    out += std::to_string(h->time.count()) + ":";
-    if (h->entry == nullptr) out += "-";
-    else {
-      int idx = -1;
-      for (int e = 0; e < n; e++) if (r.entries[e].get() == h->entry) idx = e;
-      out += std::to_string(idx);
-    }
-  }
   out += "]";
-  // ~SchedulerEntry asserts !is_scheduled(): unschedule through the public API first
+  // informational only (never part of the verdict): the raw heap array, if the scheduler still has one
+  out += dump_heap(r.sched_ref(), r.entries);
+  // ~SchedulerEntry asserts !is_scheduled(): unschedule through the public API first; erase() on the
+  // wrong scheduler throws before touching anything
   for (int e = 0; e < n; e++)
-    if (r.entries[e]->is_scheduled()) r.entries[e]->m_handle->scheduler->erase(r.entries[e].get());
+    if (r.entries[e]->is_scheduled()) {
+      try { r.sched_ref().erase(r.entries[e].get()); } catch (torrent::internal_error&) { r.other_sched.erase(r.entries[e].get()); }
+    }
   if (has_loop) {
     torrent::ThreadMain::set_thread_base(nullptr);
     torrent::system::Thread::m_self = nullptr;
@@ -348,16 +382,55 @@ static std::string run_case(const std::string& line) {
   return out;
 }
 
-int main() {
+// --params: the constants of the API as the COMPILED library enforces them (binary search through
+// the public ExternalScheduler interface); one line "min_wait min_update max_wf max_wfc max_uf max_ufc" (us).
+template <typename F>
+static int64_t search_first_accepted(int64_t lo, int64_t hi, F accepts) {  // accepts is monotone false..true
+  while (lo < hi) { int64_t mid = lo + (hi - lo) / 2; if (accepts(mid)) hi = mid; else lo = mid + 1; }
+  return lo;
+}
+template <typename F>
+static int64_t search_last_accepted(int64_t lo, int64_t hi, F accepts) {   // accepts is monotone true..false
+  while (lo < hi) { int64_t mid = lo + (hi - lo + 1) / 2; if (accepts(mid)) lo = mid; else hi = mid - 1; }
+  return lo;
+}
+static std::vector<int64_t> probe_params() {
+  ExternalScheduler s;
+  SchedulerEntry e;
+  e.slot() = [] {};
+  const int64_t big = int64_t(1) << 61;
+  auto tryop = [&](auto op) { try { op(); s.erase(&e); return true; } catch (torrent::internal_error&) { if (e.is_scheduled()) s.erase(&e); return false; } };
+  std::vector<int64_t> v;
+  v.push_back(search_first_accepted(1, big, [&](int64_t t) { return tryop([&] { s.wait_until(&e, us(t)); }); }));
+  v.push_back(search_first_accepted(1, big, [&](int64_t t) { return tryop([&] { s.update_wait_until(&e, us(t)); }); }));
+  s.external_set_cached_time(us(big));
+  v.push_back(search_last_accepted(0, big, [&](int64_t d) { return tryop([&] { s.wait_for(&e, us(d)); }); }));
+  v.push_back(search_last_accepted(0, big, [&](int64_t d) { return tryop([&] { s.wait_for_ceil_seconds(&e, us(d)); }); }));
+  v.push_back(search_last_accepted(0, big, [&](int64_t d) { return tryop([&] { s.update_wait_for(&e, us(d)); }); }));
+  v.push_back(search_last_accepted(0, big, [&](int64_t d) { return tryop([&] { s.update_wait_for_ceil_seconds(&e, us(d)); }); }));
+  return v;
+}
+
+int main(int argc, char** argv) {
   std_setup();
+  auto params = probe_params();
+  g_probe_big_dt = params[2];
+  if (argc > 1 && std::string(argv[1]) == "--params") {
+    std::string out;
+    for (auto x : params) out += (out.empty() ? "" : " ") + std::to_string(x);
+    std::cout << out << "\n";
+    return 0;
+  }
   std::string line;
   while (std::getline(std::cin, line)) {
     std::string out;
+    alarm(30);  // per-case watchdog: a hang kills this process with SIGALRM, the runner resumes after the case
     try {
       out = run_case(line);
     } catch (std::exception& e) {
       out = std::string("HARNESS-ERROR ") + e.what();
     }
+    alarm(0);
     std::cout << out << "\n";
   }
   return 0;
